@@ -446,21 +446,24 @@ open Canopy
 /-- the keys `IndexBlock` / `IndexQC` / `IndexTx` write (32-byte hashes, IndexByAccount off) -/
 inductive IdxKey : Bytes → Prop
   | blockHash (hash : Bytes) (h : hash.length = 32) : IdxKey (blockHashKey hash)
-  | blockHeight (h : Nat) : IdxKey (blockHeightKey h)
-  | qcHeight (h : Nat) : IdxKey (qcHeightKey h)
+  | blockHeight (h : Nat) (hh : h < 18446744073709551616) : IdxKey (blockHeightKey h)
+  | qcHeight (h : Nat) (hh : h < 18446744073709551616) : IdxKey (qcHeightKey h)
   | txHash (hash : Bytes) (h : hash.length = 32) : IdxKey (txHashKey hash)
-  | txHeightIndex (h i : Nat) : IdxKey (txHeightIndexKey h i)
+  | txHeightIndex (h i : Nat) (hh : h < 18446744073709551616) (hi : i < 18446744073709551616) :
+      IdxKey (txHeightIndexKey h i)
 
 /-- the segment list of an index key -/
 theorem IdxKey.segs {k : Bytes} (h : IdxKey k) : ∃ segs, SegsOK segs ∧ k = joinLenPrefix segs ∧
-    ((∃ hash, hash.length = 32 ∧ segs = [[5], hash]) ∨ (∃ n, segs = [[6], be8 n]) ∨ (∃ n, segs = [[7], be8 n]) ∨
-     (∃ hash, hash.length = 32 ∧ segs = [[1], hash]) ∨ (∃ n i, segs = [[2], be8 n, be8 i])) := by
+    ((∃ hash, hash.length = 32 ∧ segs = [[5], hash]) ∨ (∃ n, n < 18446744073709551616 ∧ segs = [[6], be8 n]) ∨
+     (∃ n, n < 18446744073709551616 ∧ segs = [[7], be8 n]) ∨
+     (∃ hash, hash.length = 32 ∧ segs = [[1], hash]) ∨
+     (∃ n i, n < 18446744073709551616 ∧ i < 18446744073709551616 ∧ segs = [[2], be8 n, be8 i])) := by
   cases h with
   | blockHash hash hl => exact ⟨_, by intro s hs; simp at hs; rcases hs with rfl | rfl <;> simp [hl], rfl, Or.inl ⟨hash, hl, rfl⟩⟩
-  | blockHeight n => exact ⟨_, by intro s hs; simp at hs; rcases hs with rfl | rfl <;> simp [be8_length], rfl, Or.inr (Or.inl ⟨n, rfl⟩)⟩
-  | qcHeight n => exact ⟨_, by intro s hs; simp at hs; rcases hs with rfl | rfl <;> simp [be8_length], rfl, Or.inr (Or.inr (Or.inl ⟨n, rfl⟩))⟩
+  | blockHeight n hn => exact ⟨_, by intro s hs; simp at hs; rcases hs with rfl | rfl <;> simp [be8_length], rfl, Or.inr (Or.inl ⟨n, hn, rfl⟩)⟩
+  | qcHeight n hn => exact ⟨_, by intro s hs; simp at hs; rcases hs with rfl | rfl <;> simp [be8_length], rfl, Or.inr (Or.inr (Or.inl ⟨n, hn, rfl⟩))⟩
   | txHash hash hl => exact ⟨_, by intro s hs; simp at hs; rcases hs with rfl | rfl <;> simp [hl], rfl, Or.inr (Or.inr (Or.inr (Or.inl ⟨hash, hl, rfl⟩)))⟩
-  | txHeightIndex n i => exact ⟨_, by intro s hs; simp at hs; rcases hs with rfl | rfl | rfl <;> simp [be8_length], rfl, Or.inr (Or.inr (Or.inr (Or.inr ⟨n, i, rfl⟩)))⟩
+  | txHeightIndex n i hn hi' => exact ⟨_, by intro s hs; simp at hs; rcases hs with rfl | rfl | rfl <;> simp [be8_length], rfl, Or.inr (Or.inr (Or.inr (Or.inr ⟨n, i, hn, hi', rfl⟩)))⟩
 
 theorem prefix_eq_of_length {α : Type} {a b : List α} (h : a <+: b) (hl : a.length = b.length) : a = b := by
   obtain ⟨t, rfl⟩ := h
@@ -473,8 +476,8 @@ theorem idxKey_wf : WFKeys IdxKey where
     intro k hk
     obtain ⟨segs, hok, rfl, hshape⟩ := hk.segs
     refine ⟨?_, ?_, by unfold keyOK; rw [decode_join segs hok]; rfl⟩
-    · rcases hshape with ⟨_, _, rfl⟩ | ⟨_, rfl⟩ | ⟨_, rfl⟩ | ⟨_, _, rfl⟩ | ⟨_, _, rfl⟩ <;> simp [joinLenPrefix]
-    · rcases hshape with ⟨_, hl, rfl⟩ | ⟨_, rfl⟩ | ⟨_, rfl⟩ | ⟨_, hl, rfl⟩ | ⟨_, _, rfl⟩
+    · rcases hshape with ⟨_, _, rfl⟩ | ⟨_, _, rfl⟩ | ⟨_, _, rfl⟩ | ⟨_, _, rfl⟩ | ⟨_, _, _, _, rfl⟩ <;> simp [joinLenPrefix]
+    · rcases hshape with ⟨_, hl, rfl⟩ | ⟨_, _, rfl⟩ | ⟨_, _, rfl⟩ | ⟨_, hl, rfl⟩ | ⟨_, _, _, _, rfl⟩
       · simp [joinLenPrefix, hl]
       · simp [joinLenPrefix, be8_length]
       · simp [joinLenPrefix, be8_length]
@@ -486,8 +489,8 @@ theorem idxKey_wf : WFKeys IdxKey where
     obtain ⟨sb, okb, rfl, shB⟩ := hb.segs
     have hs := join_prefix sa sb oka okb hp
     congr 1
-    rcases shA with ⟨_, _, rfl⟩ | ⟨_, rfl⟩ | ⟨_, rfl⟩ | ⟨_, _, rfl⟩ | ⟨_, _, rfl⟩ <;>
-      rcases shB with ⟨_, _, rfl⟩ | ⟨_, rfl⟩ | ⟨_, rfl⟩ | ⟨_, _, rfl⟩ | ⟨_, _, rfl⟩ <;>
+    rcases shA with ⟨_, _, rfl⟩ | ⟨_, _, rfl⟩ | ⟨_, _, rfl⟩ | ⟨_, _, rfl⟩ | ⟨_, _, _, _, rfl⟩ <;>
+      rcases shB with ⟨_, _, rfl⟩ | ⟨_, _, rfl⟩ | ⟨_, _, rfl⟩ | ⟨_, _, rfl⟩ | ⟨_, _, _, _, rfl⟩ <;>
       first
         | exact prefix_eq_of_length hs rfl
         | (exfalso; simp [List.cons_prefix_cons] at hs)
@@ -499,7 +502,7 @@ theorem idxKey_pfx (h : Nat) : PfxOK IdxKey (txHeightKey h) := by
   obtain ⟨sa, oka, rfl, shA⟩ := hk.segs
   have okb : SegsOK [[2], be8 h] := by intro s hs; simp at hs; rcases hs with rfl | rfl <;> simp [be8_length]
   have hs := join_prefix sa [[2], be8 h] oka okb hp
-  rcases shA with ⟨_, _, rfl⟩ | ⟨_, rfl⟩ | ⟨_, rfl⟩ | ⟨_, _, rfl⟩ | ⟨_, _, rfl⟩ <;>
+  rcases shA with ⟨_, _, rfl⟩ | ⟨_, _, rfl⟩ | ⟨_, _, rfl⟩ | ⟨_, _, rfl⟩ | ⟨_, _, _, _, rfl⟩ <;>
     simp [List.cons_prefix_cons] at hs
 
 end Canopy.Store
